@@ -838,6 +838,8 @@ class Oracle:
             return Verdict('unknown', why + '; finite unknown')
         except Unsupported as e:
             pass
+        except z3.Z3Exception as e:
+            return Verdict('unknown', why + '; finite-z3error:%s' % str(e)[:60])
         # arithmetic: ground statements are decided by the independent evaluator
         if r == 'sat':
             try:
